@@ -105,7 +105,7 @@ def get_backend_types(check_cls_fqn: str) -> BackendTypes:
         dataframe_datatypes.append(gpd.GeoDataFrame)
         series_datatypes.append(gpd.GeoSeries)
 
-    register_fn = {
+    register_fns = {
         "pandas": register_pandas_backend,
         "dask_expr": register_dask_backend,
         "dask": register_dask_backend,
@@ -113,9 +113,14 @@ def get_backend_types(check_cls_fqn: str) -> BackendTypes:
         "pyspark": register_pyspark_backend,
         "geopandas": register_geopandas_backend,
         "pandera": lambda: None,
-    }[mod_name]
+    }
+    if mod_name not in register_fns:
+        # e.g. a polars.DataFrame passed to a pandas schema
+        raise BackendNotFoundError(
+            f"module {mod_name} of {check_cls_fqn} is not pandas-like"
+        )
 
-    register_fn()
+    register_fns[mod_name]()
 
     check_backend_types = [
         *dataframe_datatypes,
